@@ -185,6 +185,161 @@ class Tr:
         raise Unknown('%s: unknown statement %s' % (self.fname, ast.dump(st)[:120]))
 
 
+class TrLoop(Tr):
+    """the scanning functions: a `for i, c in enumerate(string[E:], start=E)` loop over the characters, with state
+    variables, early returns and a return after the loop, becomes a structurally recursive Fixpoint over the suffix
+    of the string: the loop variables and every local in scope are its parameters, an assignment is a shadowing
+    `let`, falling off the end of the body is the recursive call on the rest of the suffix, the statements after the
+    loop are the empty-suffix case.  `return None` is None, any other returned value v is Some v."""
+
+    def __init__(self, fname, args, out):
+        Tr.__init__(self, fname, args, ret='option')
+        self.out = out            # Fixpoints emitted before the function itself
+        self.nloops = 0
+        self.order = list(args)   # locals in scope, in order of first binding
+
+    def bind(self, name, sort):
+        if name not in self.env:
+            self.order.append(name)
+        elif self.env[name][1] != sort:
+            raise Unknown('%s: local %s changes sort' % (self.fname, name))
+        self.env[name] = (ARGS[name][0] if name in ARGS else name, sort)
+
+    def expr(self, e):
+        if isinstance(e, ast.Subscript) and isinstance(e.slice, ast.Slice) and e.slice.step is None \
+                and e.slice.lower is not None and e.slice.upper is not None:
+            t, srt = Tr.expr(self, e.value)
+            if srt != 'str':
+                self.fail(e, 'slice of something that is not the string')
+            return '(substr %s %s %s)' % (t, self.z(e.slice.lower), self.z(e.slice.upper)), 'str'
+        if isinstance(e, ast.Constant) and e.value == '':
+            return '[]', 'str'
+        if isinstance(e, ast.Tuple):
+            parts = [self.expr(x) for x in e.elts]
+            return '(' + ', '.join(p[0] for p in parts) + ')', 'tuple:' + ','.join(p[1] for p in parts)
+        if isinstance(e, ast.Compare) and len(e.ops) == 1 and isinstance(e.ops[0], ast.NotIn):
+            t, srt = Tr.expr(self, e.comparators[0])
+            if srt != 'Z -> bool':
+                self.fail(e, 'membership in something that is not a character set')
+            return '(negb (%s %s))' % (t, self.z(e.left)), 'bool'
+        if isinstance(e, ast.Call) and isinstance(e.func, ast.Name) and e.func.id in LOOPSIGS and not e.keywords:
+            want, rs = LOOPSIGS[e.func.id]
+            if len(want) != len(e.args):
+                self.fail(e, 'wrong number of arguments')
+            ts = []
+            for a, srt in zip(e.args, want):
+                t, s0 = self.expr(a)
+                if s0 != srt:
+                    self.fail(e, 'argument of sort %s, expected %s' % (s0, srt))
+                ts.append(t)
+            return '(g_%s %s)' % (e.func.id, ' '.join(ts)), rs
+        return Tr.expr(self, e)
+
+    def ret_term(self, value):
+        if isinstance(value, ast.Constant) and value.value is None:
+            return 'None'
+        t, srt = self.expr(value)
+        if self.result is None:
+            self.result = srt
+        elif self.result != srt:
+            self.fail(value, 'returns values of different sorts: %s and %s' % (self.result, srt))
+        return 'Some %s' % t if self.optional else t
+
+    result = None
+    optional = True
+
+    def block(self, stmts, k=None):
+        if not stmts:
+            if k is None:
+                raise Unknown('%s: a path falls off the end of the function' % self.fname)
+            if k[0] == 'LOOP':
+                return '(%s r (i + 1) %s)' % (k[1], ' '.join(self.env[v][0] for v in k[2]))
+            return self.block(k[0], k[1])
+        st, rest = stmts[0], stmts[1:]
+        if isinstance(st, ast.Expr) and isinstance(st.value, ast.Constant) and isinstance(st.value.value, str):
+            return self.block(rest, k)
+        if isinstance(st, ast.Return) and st.value is not None:
+            return self.ret_term(st.value)
+        if isinstance(st, ast.If):
+            test = self.b(st.test)
+            saved, saved_order = dict(self.env), list(self.order)
+            yes = self.block(st.body, (rest, k))
+            self.env, self.order = dict(saved), list(saved_order)
+            no = self.block(st.orelse, (rest, k)) if st.orelse else self.block(rest, k)
+            self.env, self.order = saved, saved_order
+            return '(if %s then %s else %s)' % (test, yes, no)
+        if isinstance(st, ast.Assign) and len(st.targets) == 1 and isinstance(st.targets[0], ast.Name):
+            nm = st.targets[0].id
+            if nm in CHARSETS or nm in SIGS or nm in LOOPSIGS or nm in ('i', 'c', 'r', 'l'):
+                raise Unknown('%s: assignment to %s shadows a known name' % (self.fname, nm))
+            t, srt = self.expr(st.value)
+            self.bind(nm, srt)
+            return '(let %s := %s in %s)' % (self.env[nm][0], t, self.block(rest, k))
+        if isinstance(st, ast.AugAssign) and isinstance(st.target, ast.Name) and isinstance(st.op, (ast.Add, ast.Sub)) \
+                and st.target.id in self.env and self.env[st.target.id][1] == 'Z':
+            nm = self.env[st.target.id][0]
+            t = '(%s %s %s)' % (nm, '+' if isinstance(st.op, ast.Add) else '-', self.z(st.value))
+            return '(let %s := %s in %s)' % (nm, t, self.block(rest, k))
+        if isinstance(st, ast.For) and not st.orelse:
+            # for i, c in enumerate(<string>[E:], start=E)
+            tg, it = st.target, st.iter
+            ok = isinstance(tg, ast.Tuple) and [getattr(x, 'id', None) for x in tg.elts] == ['i', 'c'] \
+                and isinstance(it, ast.Call) and isinstance(it.func, ast.Name) and it.func.id == 'enumerate' and len(it.args) == 1 \
+                and len(it.keywords) == 1 and it.keywords[0].arg == 'start' and isinstance(it.args[0], ast.Subscript) \
+                and isinstance(it.args[0].slice, ast.Slice) and it.args[0].slice.upper is None and it.args[0].slice.step is None \
+                and it.args[0].slice.lower is not None and ast.dump(it.args[0].slice.lower) == ast.dump(it.keywords[0].value)
+            if not ok or 'i' in self.env or 'c' in self.env:
+                raise Unknown('%s: unknown loop header %s' % (self.fname, ast.dump(st)[:160]))
+            subj, srt = Tr.expr(self, it.args[0].value)
+            if srt != 'str':
+                raise Unknown('%s: loop over something that is not the string' % self.fname)
+            start = self.z(it.keywords[0].value)
+            self.nloops += 1
+            name = 'g_%s_loop%d' % (self.fname, self.nloops)
+            params = list(self.order)
+            saved, saved_order = dict(self.env), list(self.order)
+            self.env['i'] = ('i', 'Z')
+            self.env['c'] = ('c', 'Z')
+            body = self.block(st.body, ('LOOP', name, params))
+            self.env, self.order = dict(saved), list(saved_order)
+            after = self.block(rest, k)
+            self.env, self.order = saved, saved_order
+            sig = ' '.join('(%s : %s)' % (self.env[v][0], self.env[v][1]) for v in params)
+            self.out.append('Fixpoint %s (l : str) (i : Z) %s {struct l} :=\n  match l with\n  | [] => %s\n  | c :: r => %s\n  end.\n'
+                            % (name, sig, after, body))
+            return '(%s (drop %s %s) %s %s)' % (name, start, subj, start, ' '.join(self.env[v][0] for v in params))
+        raise Unknown('%s: unknown statement %s' % (self.fname, ast.dump(st)[:140]))
+
+
+LOOPSIGS = {}
+LOOPFUNCS = [('shift_whitespace', ['string', 'index'], False), ('match_link_dest', ['string', 'offset'], True),
+             ('match_link_title', ['string', 'offset'], True)]
+ARGS['offset'] = ('offset', 'Z')
+
+
+def generate_loops(top):
+    out = []
+    LOOPSIGS.clear()
+    for name, want, optional in LOOPFUNCS:
+        if name not in top:
+            raise Unknown('function %s not found in core_tokens.py' % name)
+        f = top[name]
+        a = f.args
+        if [x.arg for x in a.args] != want or a.vararg or a.kwarg or a.kwonlyargs or a.defaults or f.decorator_list:
+            raise Unknown('%s: unknown signature' % name)
+        pre = []
+        tr = TrLoop(name, want, pre)
+        tr.optional = optional
+        tr.result = None
+        term = tr.block(f.body)
+        out += pre
+        params = ' '.join('(%s : %s)' % ARGS[x] for x in want)
+        out.append('(* core_tokens.%s *)' % name)
+        out.append('Definition g_%s %s :=\n  %s.\n' % (name, params, term))
+        LOOPSIGS[name] = ([ARGS[x][1] for x in want], ('option:' + tr.result) if optional else tr.result)
+    return out
+
+
 SIGS = {}
 
 
@@ -247,6 +402,7 @@ def generate():
     out.append('(* core_tokens.Delimiter.closed_by *)')
     out.append('Definition g_closed_by (self other : delim) : bool :=\n  %s.' % tr.block(cb.body))
     out.append('')
+    out += generate_loops(top)
     return {'GenCore.v': '\n'.join(out) + '\n', 'GenSpan.v': generate_span()}
 
 
